@@ -163,7 +163,7 @@ func msgLines(prefix string, file int, m *descriptorpb.DescriptorProto) []line {
 }
 
 func svcLines(pkgName string, file int, s *descriptorpb.ServiceDescriptorProto) []line {
-	l := line{Tag: 6, Strs: []string{pkgName + "." + s.GetName(), "", ""}, Nums: []uint64{uint64(file), 0, 0}}
+	l := line{Tag: 6, Strs: []string{pkgName + "." + s.GetName(), "", "", ""}, Nums: []uint64{uint64(file), 0, 0}}
 	var opts proto.Message
 	if s.Options != nil {
 		opts = s.Options
@@ -173,6 +173,10 @@ func svcLines(pkgName string, file int, s *descriptorpb.ServiceDescriptorProto) 
 			l.Strs[1], l.Nums[1] = q.GetEntity(), 1
 		} else if c := so.GetStateCommand(); c != nil {
 			l.Strs[1], l.Nums[1] = c.GetEntity(), 2
+		}
+		l.Strs[3] = strings.Join(so.GetAudience(), ",")
+		if so.GetDefaultAuth() != nil {
+			l.Strs[3] += "+auth"
 		}
 	}
 	if mc, ok := getExt[*messaging_j5pb.ServiceConfig](opts, messaging_j5pb.E_Service); ok && mc != nil {
